@@ -46,13 +46,13 @@ func c13ExhaustiveCount(tier string) int {
 func init() {
 	register(&Prop{
 		ID: "C13", Level: "exploration",
-		Rule:        "exhaustive part: for every key-set size n <= 5 (quick) / 6 (thorough), EVERY insertion order x EVERY priority ranking (n!*n! histories; distinct priorities) is built step by step; then every single key is deleted and re-inserted, then the store is flushed, evicted, re-opened and mutated once more. After every step the verif-hook walk (cached nodes) completed with the independent decoder (persisted subtrees) recomputes every node's numNodes/numBytes bottom-up, checks strict in-order key order against the model, heap order and the depth of every item against the unique treap (Cartesian tree) of the current keys and priorities; the same shape oracle is evaluated through the public API only ((key,priority,depth) sequence of VisitItemsAscendEx), and every flushed image is validated node by node by the decoder. Random part: collections up to 200 items with deletes, overwrites at higher/equal/lower priority (heap and shape clauses are switched off from the first lowering overwrite until the collection is empty, as the statement allows), tied priorities (shape clause off, heap clause on), custom comparators and value-length callbacks. Non-trivial = n >= 2 (exhaustive) or a history with overwrite and delete (random); distinct = distinct (n, order, ranking) or op-trace hash.",
+		Rule:        "exhaustive part: for every key-set size n <= 5 (quick) / 6 (thorough), EVERY insertion order x EVERY priority ranking (n!*n! histories; distinct priorities) is built step by step; then every single key is deleted and re-inserted, then the store is flushed, evicted, re-opened and mutated once more. After every step the verif-hook walk (cached nodes) completed with the independent decoder (persisted subtrees) recomputes every node's numNodes/numBytes bottom-up, checks strict in-order key order against the model, heap order and the depth of every item against the unique treap (Cartesian tree) of the current keys and priorities; the same shape oracle is evaluated through the public API only ((key,priority,depth) sequence of VisitItemsAscendEx), and every flushed image is validated node by node by the decoder. Random part: collections up to 200 items with deletes, overwrites at higher/equal/lower priority (heap and shape clauses are switched off from the first lowering overwrite until the collection is empty, as the statement allows), tied priorities (shape clause off, heap clause on), custom comparators, value-length callbacks (neutral ones and a codec whose on-disk value length is twice len(Val), so that byte totals are defined by ItemValLength on every path), and flushes that fail on one write and are retried (the persisted tree must still be exact). Non-trivial = n >= 2 (exhaustive) or a history with overwrite and delete (random); distinct = distinct (n, order, ranking) or op-trace hash.",
 		Assumptions: []string{"comparators are total orders", "walks run at quiescent points only (between API calls)"},
 		Exhaustive:  func(string) bool { return false },
 		NumCases:    func(tier string) int { return c13ExhaustiveCount(tier) + pick(tier, 500, 20000) },
 		Run:         runC13,
 		Floor: func(tier string, st map[string]int64) string {
-			for _, k := range []string{"c13.exhaustive-cases", "walks", "shape.checks", "shape.canonical-depths-checked", "decodes", "c13.random-heapoff-cases", "c13.random-tied-cases", "op.Set.overwrite-lower"} {
+			for _, k := range []string{"c13.exhaustive-cases", "walks", "shape.checks", "shape.canonical-depths-checked", "decodes", "shape.heap-off-checks", "shape.tied-priority-checks", "op.Set.overwrite-lower", "c13.length-changing-codec-cases", "failed-flushes"} {
 				if st[k] == 0 {
 					return "no " + k + " observed"
 				}
@@ -124,15 +124,21 @@ func runC13(ctx *Ctx, idx int) Result {
 		Sample: map[string]interface{}{"index": idx, "n": n, "insertion_order": order, "priority_ranking": rank}}
 }
 
-var mixC13 = Mix{Set: 40, Delete: 14, GetItem: 2, Visit: 2, Flush: 5, Evict: 5, Reopen: 3}
+var mixC13 = Mix{Set: 40, Delete: 14, GetItem: 2, Visit: 2, Totals: 2, Flush: 5, Evict: 5, Reopen: 3, FaultyFlush: 1}
 
 func runC13Random(ctx *Ctx, idx int) Result {
 	seed := CaseSeed(ctx.Seed, "C13", idx)
 	r := gen.New(seed)
 	SeedGlobalRand(seed)
 	cfg := driver.Config{MemOnly: r.P(20), Walk: true, Decode: true}
-	if r.P(25) {
+	switch r.Intn(8) {
+	case 0, 1:
 		cfg.CB = driver.CBVal
+	case 2, 3:
+		// a value codec whose on-disk length differs from len(Val): the aggregates
+		// must follow ItemValLength on every path
+		cfg.CB = driver.CBValDouble
+		ctx.Stats["c13.length-changing-codec-cases"]++
 	}
 	reg := gen.PrioRegime(r.Intn(int(gen.NumPrioRegimes)))
 	hc := HistCfg{Steps: r.Range(40, 400), NColls: 1, NKeys: r.Range(5, 200), KeyClass: []gen.KeyClass{gen.KeysShort, gen.KeysPrefix, gen.KeysDigits}[r.Intn(3)],
